@@ -18,6 +18,37 @@ CHECKS = {
             'Trusts the scripted transport to stand for the real ones on the read path (it runs the real '
             'decoder/_log and the real Expecter); 10% of marker-free cases are replayed on a real fdspawn pipe.',
             'DESIGN.md 3/C01'),
+    'C02': ('E1 scripted transport + validity/optimality predicate',
+            'Hypothesis-generated pattern lists/streams/splittings; brute-force validity + leftmost/lowest-index '
+            'optimality predicate over the searched text (independent of the implementation)',
+            'Generated search over pattern lists (overlapping, prefixes, duplicates, markers interleaved) x streams x '
+            'splittings x window; each returned match is re-derived by brute force: genuine at the reported '
+            'position, no earlier start for any listed pattern, lowest index on ties, match/match_index coherent.',
+            'Searched text taken as the last W characters of before+after+buffer (C03 checks that). Scripted transport.',
+            'DESIGN.md 3/C02'),
+    'C03': ('E1 scripted transport + naive reference model',
+            'Hypothesis-generated histories with per-call window; differential against a naive full re-search model '
+            '(outcome, index, before/after/pending and number of reads)',
+            'Differential testing of the incremental search (freshlen offset, look-back trimming, window rebuild) '
+            'against a 40-line naive model, over chunkings, window sizes changing per call and TIMEOUT-trimmed buffers.',
+            'The naive model is the specification (leftmost in the sliced last-W text, lowest index on ties). Scripted transport.',
+            'DESIGN.md 3/C03'),
+    'C04': ('E1 scripted transport + naive model (part A)',
+            'Hypothesis-generated histories with EOF/TIMEOUT markers at generated list positions; outcome oracle '
+            '(index or exact exception class, before = all pending, after = class, sticky EOF)',
+            'Generated search over marker positions x entry points x histories x timeout values incl. 0; every '
+            'EOF/TIMEOUT outcome is checked for index/exact class/before/after/cleared buffer and a pending match '
+            'must win; three extra calls after the first EOF.',
+            'Part A runs on the scripted transport; diagnostics are built by the real spawn.__str__.',
+            'DESIGN.md 3/C04'),
+    'C20': ('E1 scripted transport + naive model per pattern form',
+            'Hypothesis-generated pattern text x flags x stream evaluated under every accepted pattern form and '
+            'entry point; differential against the naive model with the reference regex of that form; invalid objects',
+            'Metamorphic/differential: up to 12 forms x 3 entry points per case must agree with the reference '
+            'semantics (DOTALL+ignorecase for strings, own flags for compiled, same flags across string types); '
+            'invalid objects must raise TypeError before any read.',
+            'Non-ASCII str patterns to a bytes-mode object are unspecified and not generated. Scripted transport.',
+            'DESIGN.md 3/C20'),
 }
 
 NOT_YET = {
